@@ -43,11 +43,11 @@ Definition w_dout_f : db :=
 Definition cfg_extdrift : cfg :=
   mkcfg nc_k true true false (-1) false false 0 0 0 false 5 0 1 2 2 1 true [] false (-1) 1 0 0 true true 0.
 
-(* failure at every point of check / preprocess (after 0..9 operations) / run: reported, and both Dbs restored *)
+(* failure at every point of check / preprocess (after 0..6 operations) / run: reported, and both Dbs restored *)
 Definition sweep_atomic (c : calc) (din dout : db) : bool :=
   forallb (fun fs => forallb (fun fk =>
      let '(ok, s) := calc_run c (init_st din dout false) fs fk in
-     negb ok && db_eqb (s_in s) din && db_eqb (s_out s) dout) (seq 0 10)) [1; 2; 3].
+     negb ok && db_eqb (s_in s) din && db_eqb (s_out s) dout) (seq 0 7)) [1; 2; 3].
 (* conditional turning bands with DGM *)
 Definition cfg_simtub_dgm : cfg :=
   mkcfg (mknc (Str "Simu") true true true 1 (Str ".") true) false false false (-1) true false 0 0 0 false 5 0 1 2 2 0 true [] false (-1) 2 0 0 true true 0.
@@ -68,3 +68,41 @@ Definition cfg_simfft : cfg :=
 Definition kriging_no_z_outcome : Z * bool :=
   (failing_stage (kriging cfg_kriging true) (init_st w_din_noz w_dout false) 0 0%nat,
    fst (calc_run (kriging cfg_kriging true) (init_st w_din_noz w_dout false) 0 0%nat)).
+
+(* two factors f1, f2 carrying the Z locator *)
+Definition w_din_fac : db :=
+  mkdb [mkcol 0 (Str "rank") (Orig 0); mkcol 1 (Str "x1") (Orig 1); mkcol 2 (Str "x2") (Orig 2);
+        mkcol 3 (Str "f1") (Orig 3); mkcol 4 (Str "f2") (Orig 4)]
+       5 (locs_of [1; 2] [3; 4]) false 0.
+Definition nc_kd : namconv := mknc (Str "KD") true true true 1 (Str ".") true.
+(* krigingFactors on two factors; ver 0: _rollback as in the pinned tree, ver 1 (+ rb2): fixes/C19_6.patch *)
+Definition cfg_krigfac (dgm rb2 : bool) (ver : Z) : cfg :=
+  mkcfg nc_kd true true false (-1) dgm false 0 0 0 false 5 0 1 2 2 0 true [3; 4] false (-1) 1 0 0 true rb2 ver.
+(* tessellation_poisson *)
+Definition cfg_poisson : cfg :=
+  mkcfg (mknc (Str "Tess") true true true 1 (Str ".") true) false false false (-1) false false 0 0 0 false 5 0 1 2 0 0 true [] false (-1) 1 1 0 false false 0.
+Definition cfg_voronoi : cfg :=
+  mkcfg (mknc (Str "Tess") true true true 1 (Str ".") true) false false false (-1) false false 0 0 0 false 5 0 1 2 0 0 true [] false (-1) 1 0 0 false false 0.
+(* fluid_propagation whose fluid variable is the column uid 4 ("old") of w_dout *)
+Definition cfg_eden : cfg :=
+  mkcfg (mknc (Str "Eden") true true true 1 (Str ".") true) false false false (-1) false false 0 0 0 false 5 0 0 0 0 0 true [4] false (-1) 1 0 1 false false 0.
+(* xvalid: one Db *)
+Definition cfg_xvalid : cfg :=
+  mkcfg nc_k true true false (-1) false true 1 1 0 false 5 0 1 2 2 0 true [] false (-1) 1 0 0 true true 0.
+Definition sweep_atomic1 (c : calc) (d : db) : bool :=
+  forallb (fun fs => forallb (fun fk =>
+     let '(ok, s) := calc_run c (init_st d d true) fs fk in
+     negb ok && db_eqb (s_in s) d) (seq 0 7)) [1; 2; 3].
+
+(* the same options with other code-version flags (proposed fixes C19_6 .. C19_9) *)
+Definition with_ver (c : cfg) (rb2 : bool) (ver : Z) : cfg :=
+  mkcfg (g_nc c) (g_est c) (g_std c) (g_varz c) (g_single c) (g_dgm c) (g_xvalid c) (g_xv_est c) (g_xv_std c) (g_xv_varz c)
+        (g_neigh_only c) (g_nbneigh c) (g_matlc c) (g_mnvar c) (g_mndim c) (g_nndim c) (g_nfex c) (g_extra_ok c)
+        (g_iuids c) (g_locate c) (g_loctype c) (g_nbsimu c) (g_mode c) (g_n c) (g_has_in c) rb2 ver.
+(* success: dbin untouched *)
+Definition success_keeps_dbin (c : calc) (din dout : db) : bool :=
+  let '(ok, s) := calc_run c (init_st din dout false) 0 0%nat in ok && db_eqb (s_in s) din.
+(* failure injected after each whole stage (the operations of a nested calculator are not failure points of this one) *)
+Definition stage_atomic (c : calc) (din dout : db) : bool :=
+  forallb (fun fs => let '(ok, s) := calc_run c (init_st din dout false) fs 1000%nat in
+                     negb ok && db_eqb (s_in s) din && db_eqb (s_out s) dout) [1; 2; 3].
